@@ -465,7 +465,7 @@ def check_contacts(chk, fi: FuncInfo, loop: ast.For, m: PairsModel, eq_fields) -
     ids = identity_compares(m.paths)
     whole = {"same-label": SAME_LABEL, "same-auth": SAME_AUTH}
     # identity tests other than the two whole-object ones (partial identity, object equality of residues)
-    other_ids = [t for t in ids if t[0] not in SAME_LABEL | SAME_AUTH and t[0] not in SAME_TYPE]
+    other_ids = [t for t in ids if t[0] not in SAME_LABEL | SAME_AUTH and t[0] not in SAME_TYPE and (t[2] == {"<object>"} or t[2] <= {"chain", "number", "icode", "model", "name", "label", "auth"})]
     bad: Dict[str, Tuple[SX.Path, SX.Effect]] = {}
     for p, e in recs:
         if not _decided_before(p, SAME_TYPE, e, False):
